@@ -119,19 +119,20 @@ class Sched:
         """unit = plain op or ['batch', ops, abort]; applied to trie i; returns new model"""
         t = self.tries[i]
         if unit[0] == "batch":
-            _, sub, abort = unit
+            _, sub, abort = unit[:3]
+            exc_cls = hh.abort_exc(unit)
             bm = dict(model)
 
             def block():
                 with t.squash_changes() as b:
                     for j, o in enumerate(sub):
                         if abort == j:
-                            raise hh.Boom()
+                            raise exc_cls()
                         hh.apply_plain(b, bm, o)
                     if abort == len(sub):
-                        raise hh.Boom()
+                        raise exc_cls()
 
-            res = cut(block, expect=(hh.Boom, InjectedWriteFailure))
+            res = cut(block, expect=hh.ALL_ABORTS + (InjectedWriteFailure,))
             if isinstance(res, Raised):
                 if isinstance(res.exc, InjectedWriteFailure):
                     raise res.exc
@@ -224,8 +225,9 @@ class Sched:
                     continue
                 cm, b, bm = self.open.pop(i)
                 if step[2]:
-                    boom = hh.Boom()
-                    res = cut(cm.__exit__, hh.Boom, boom, None, expect=(hh.Boom,))
+                    exc_cls = hh.ABORT_EXC[int(step[2]) - 1 if int(step[2]) <= len(hh.ABORT_EXC) else 0]
+                    boom = exc_cls()
+                    res = cut(cm.__exit__, exc_cls, boom, None, expect=hh.ALL_ABORTS)
                     if res is True:
                         raise Violation("batch-swallowed-exception", "squash_changes suppressed the caller's exception")
                 else:
@@ -280,7 +282,7 @@ def gen_case(rnd, tier):
             if r < 0.6:
                 steps.append(["bop", i, hh.gen_op(rnd, universe, pool, keys[i])])
             else:
-                steps.append(["close", i, rnd.random() < 0.3])
+                steps.append(["close", i, rnd.choice([0, 0, 0, 0, 0, 0, 0, 1, 1, 2, 3, 4])])
                 open_spans.discard(i)
             continue
         if r < 0.12:
